@@ -15,16 +15,24 @@ Definition cls_eqb (a b : cls) : bool :=
 
 Inductive hook := HGetattr | HGetattribute.     (* the class's own __getattr__ / __getattribute__ *)
 
+(* an accessor function of a property: a_own = @expose applied to it as part of this property (below @property /
+   @x.setter ...); a_pre = the function object arrives already carrying _pyroExposed for a reason that is not an exposure
+   of this property: it is at the same time an exposed method under another name, or it is taken over from a base
+   class's property (Base.prop.getter(...)) whose accessors are marked *)
+Record accd := { a_own : bool; a_pre : bool }.
+(* what a class attribute whose descriptor __get__ raises does to the metadata scan (getattr(cls, name)) *)
+Inductive raise_mode := ROnce | RAlways | RPark.   (* RPark: does not raise; re-enters get_metadata from inside the scan *)
+
 Inductive kind :=
 | KMethod | KStatic | KClassM           (* function / staticmethod / classmethod in a class body *)
-| KProp (g st d : option bool)          (* property object: per accessor (getter, setter, deleter) None = absent,
-                                           Some b = present, b = @expose applied to that accessor *function* *)
+| KProp (g st d : option accd)          (* property object: per accessor (getter, setter, deleter) None = absent *)
 | KClassAttr                            (* plain class attribute (a number) *)
 | KInstAttr                             (* plain instance attribute (a number) *)
 | KHelper (class_exposed callable : bool)
                                         (* helper object stored in an instance attribute; its class has exposed methods
                                            of its own, may carry @expose (directly or inherited) and may define __call__ *)
-| KHook (h : hook).                     (* attribute hook defined in a class body; as a function it is like KMethod *)
+| KHook (h : hook)                      (* attribute hook defined in a class body; as a function it is like KMethod *)
+| KRaiser (r : raise_mode).             (* class attribute whose access on the class raises (once / always) — otherwise a plain value *)
 
 Record member := {
   m_id : nat;          (* position in the shape, used to compare with the implementation's side-effect log *)
@@ -113,8 +121,9 @@ Definition is_prop (m : member) : bool := match m_kind m with KProp _ _ _ => tru
 Definition is_method (m : member) : bool :=
   match m_kind m with KMethod | KStatic | KClassM | KHook _ => true | _ => false end.
 Definition markable (m : member) : bool := is_method m || is_prop m.
-Definition present (o : option bool) : bool := match o with Some _ => true | None => false end.
-Definition marked_acc (o : option bool) : bool := match o with Some b => b | None => false end.
+Definition present (o : option accd) : bool := match o with Some _ => true | None => false end.
+Definition marked_acc (o : option accd) : bool := match o with Some a => a_own a | None => false end.
+Definition pre_acc (o : option accd) : bool := match o with Some a => a_pre a | None => false end.
 
 Definition in_class (c : cls) (n : text) (m : member) : bool :=
   is_class_member m && cls_eqb (m_in m) c && text_eqb (m_name m) n.
@@ -155,7 +164,7 @@ Variable is_private : text -> bool.
 Definition cls_flag (s : shape) (c : cls) : bool :=
   match c with Base => s_base_exposed s | Sub => s_sub_exposed s end.
 (* the accessor whose mark decides for a property: fget or fset or fdel *)
-Definition first_acc (g st d : option bool) : option bool :=
+Definition first_acc (g st d : option accd) : option accd :=
   match g with Some b => Some b | None => match st with Some b => Some b | None => d end end.
 (* some own @expose was requested on the member: on the function / property object / an accessor function *)
 Definition own_requested (m : member) : bool :=
@@ -167,15 +176,20 @@ Definition own_mark_refused (m : member) : bool := markable m && own_requested m
    directly, or by @expose on the property object (which marks the first accessor only) *)
 Definition own_decisive (m : member) : bool :=
   match m_kind m with
-  | KProp g st d => match first_acc g st d with Some b => b || m_mark m | None => false end
+  | KProp g st d => match first_acc g st d with Some a => a_own a || m_mark m | None => false end
   | _ => m_mark m
   end.
+(* the deciding accessor function of a property is already marked in its own right *)
+Definition first_pre (m : member) : bool :=
+  match m_kind m with KProp g st d => pre_acc (first_acc g st d) | _ => false end.
+Definition any_pre (m : member) : bool :=
+  match m_kind m with KProp g st d => pre_acc g || pre_acc st || pre_acc d | _ => false end.
 (* class-level @expose marks the class's own non-private functions and all accessors of its own properties *)
 Definition class_marked (s : shape) (m : member) : bool :=
   cls_flag s (m_in m) && negb (is_private (m_name m)) &&
   match m_kind m with KProp g st d => present (first_acc g st d) | _ => true end.
 Definition exposed (s : shape) (m : member) : bool :=
-  markable m && ((own_decisive m && own_ok m) || class_marked s m).
+  markable m && ((own_decisive m && own_ok m) || class_marked s m || first_pre m).
 
 (* ---------- _get_attribute ---------- *)
 Inductive resolved := ResRefused | ResMethod (m : member) | ResHelper (m : member) | ResNotCallable.
@@ -199,7 +213,7 @@ Definition get_attribute (q : quirks) (s : shape) (n : reqname) : list effect * 
       | KHelper ce callable =>
           (e1, if ce then (if callable then (if q_helper_served q then ResHelper m else ResRefused) else ResNotCallable)
                else ResRefused)
-      | KClassAttr | KInstAttr => (e1, ResRefused)
+      | KClassAttr | KInstAttr | KRaiser _ => (e1, ResRefused)
       end
     end
   end.
@@ -293,16 +307,35 @@ Fixpoint cache_find (k : nat) (c : cache) : option metadata :=
   | (k', md) :: c' => if Nat.eqb k k' then Some md else cache_find k c'
   end.
 Definition empty_shape := {| s_base_exposed := false; s_sub_exposed := false; s_members := [] |}.
-Definition get_metadata (key : nat -> nat) (classes : list shape) (c : cache) (cid : nat) : metadata * cache :=
-  match cache_find (key cid) c with
-  | Some md => (md, c)
-  | None => let md := meta_of (nth cid classes empty_shape) in (md, (key cid, md) :: c)
+(* a class attribute whose access raises aborts the scan: get_metadata fails (None) and nothing is cached; a raiser
+   that fires once lets the next scan through.  The answer, when there is one, is computed from the class alone. *)
+Definition raiser_of (s : shape) : option raise_mode :=
+  match find (fun m => match m_kind m with KRaiser _ => is_class_member m | _ => false end) (s_members s) with
+  | Some m => match m_kind m with KRaiser r => Some r | _ => None end
+  | None => None
+  end.
+Record mstate := { ms_cache : cache; ms_fired : list nat }.   (* fired: classes whose once-raiser has already raised *)
+Definition ms_empty := {| ms_cache := []; ms_fired := [] |}.
+Definition scan_store (key : nat -> nat) (classes : list shape) (st : mstate) (cid : nat) : option metadata * mstate :=
+  let md := meta_of (nth cid classes empty_shape) in
+  (Some md, {| ms_cache := (key cid, md) :: ms_cache st; ms_fired := ms_fired st |}).
+Definition get_metadata (key : nat -> nat) (classes : list shape) (st : mstate) (cid : nat) : option metadata * mstate :=
+  match cache_find (key cid) (ms_cache st) with
+  | Some md => (Some md, st)
+  | None =>
+    match raiser_of (nth cid classes empty_shape) with
+    | Some RAlways => (None, st)
+    | Some ROnce =>
+        if existsb (Nat.eqb cid) (ms_fired st) then scan_store key classes st cid
+        else (None, {| ms_cache := ms_cache st; ms_fired := cid :: ms_fired st |})
+    | _ => scan_store key classes st cid
+    end
   end.
 (* a history of get_metadata calls, each naming the class index of the object asked about *)
-Fixpoint run_metadata (key : nat -> nat) (classes : list shape) (c : cache) (hist : list nat) : list metadata :=
+Fixpoint run_metadata (key : nat -> nat) (classes : list shape) (st : mstate) (hist : list nat) : list (option metadata) :=
   match hist with
   | [] => []
-  | cid :: rest => let '(md, c') := get_metadata key classes c cid in md :: run_metadata key classes c' rest
+  | cid :: rest => let '(md, st') := get_metadata key classes st cid in md :: run_metadata key classes st' rest
   end.
 
 (* ---------- well-formedness used by the metadata theorems ---------- *)
@@ -376,15 +409,17 @@ Section Spec.
 Variable is_private : text -> bool.
 
 (* explicitly exposed: @expose on the member itself — the function, the property object or one of its accessor
-   functions (which @expose only accepts for a non-private function) — or @expose on the very class whose body defines it *)
+   functions (which @expose only accepts for a non-private function) — or @expose on the very class whose body defines it,
+   or (property) one of its accessor functions is an explicitly exposed function in its own right *)
 Definition explicitly_exposed (s : shape) (m : member) : Prop :=
-  (own_requested m = true /\ is_private (m_fname m) = false) \/ cls_flag s (m_in m) = true.
+  (own_requested m = true /\ is_private (m_fname m) = false) \/ cls_flag s (m_in m) = true \/ any_pre m = true.
 
 (* Pyro5's rule for which explicit mark makes a member served: for a property the mark must sit on its first
    accessor (fget or fset or fdel) — @expose on the property object puts it there *)
 Definition exposed_by_rule (s : shape) (m : member) : Prop :=
   (own_decisive m = true /\ is_private (m_fname m) = false) \/
-  (cls_flag s (m_in m) = true /\ match m_kind m with KProp None None None => False | _ => True end).
+  (cls_flag s (m_in m) = true /\ match m_kind m with KProp None None None => False | _ => True end) \/
+  first_pre m = true.
 
 (* the accessor that ran fits the request kind and the kind of member *)
 Definition acc_fits (k : rkind) (a : acc) (m : member) : Prop :=
@@ -448,6 +483,9 @@ Definition class_of (objs : list nat) (o : nat) : nat := nth o objs 0.
 Definition shape_of (classes : list shape) (objs : list nat) (o : nat) : shape := nth (class_of objs o) classes empty_shape.
 
 (* ---------- recorded witnesses ---------- *)
+Definition acc_plain := {| a_own := false; a_pre := false |}.
+Definition acc_marked := {| a_own := true; a_pre := false |}.
+Definition acc_foreign := {| a_own := false; a_pre := true |}.
 Definition q_getter_only := {| q_call_runs_getter := true; q_attr_private_unchecked := false; q_helper_served := false; q_hook_getattribute := false; q_hook_getattr := false; q_get_form := AFIndexed; q_set_form := AFIndexed |}.
 Definition q_private_only := {| q_call_runs_getter := false; q_attr_private_unchecked := true; q_helper_served := false; q_hook_getattribute := false; q_hook_getattr := false; q_get_form := AFIndexed; q_set_form := AFIndexed |}.
 Definition q_helper_only := {| q_call_runs_getter := false; q_attr_private_unchecked := false; q_helper_served := true; q_hook_getattribute := false; q_hook_getattr := false; q_get_form := AFIndexed; q_set_form := AFIndexed |}.
@@ -459,13 +497,13 @@ Definition w_ping : member :=
   {| m_id := 0; m_name := [112;105;110;103]%N; m_kind := KMethod; m_in := Sub; m_mark := true;
      m_fname := [112;105;110;103]%N; m_oneway := false |}.
 Definition w_secret : member :=
-  {| m_id := 1; m_name := [115;101;99;114;101;116]%N; m_kind := KProp (Some false) (Some false) None; m_in := Sub; m_mark := false;
+  {| m_id := 1; m_name := [115;101;99;114;101;116]%N; m_kind := KProp (Some acc_plain) (Some acc_plain) None; m_in := Sub; m_mark := false;
      m_fname := [115;101;99;114;101;116]%N; m_oneway := false |}.
 Definition w1_shape := {| s_base_exposed := false; s_sub_exposed := false; s_members := [w_ping; w_secret] |}.
 Definition w1_request := mkreq RCall false [NStr (m_name w_secret)].
 (* class T: _hidden = expose(property(visible, ...))   — request: __getattr__ "_hidden" *)
 Definition w_hidden : member :=
-  {| m_id := 0; m_name := [95;104;105;100;100;101;110]%N; m_kind := KProp (Some false) (Some false) None; m_in := Sub; m_mark := true;
+  {| m_id := 0; m_name := [95;104;105;100;100;101;110]%N; m_kind := KProp (Some acc_plain) (Some acc_plain) None; m_in := Sub; m_mark := true;
      m_fname := [118;105;115;105;98;108;101]%N; m_oneway := false |}.
 Definition w2_shape := {| s_base_exposed := false; s_sub_exposed := false; s_members := [w_hidden] |}.
 Definition w2_request := mkreq RGet false [NStr (m_name w_hidden)].
@@ -474,7 +512,7 @@ Definition w_run : member :=
   {| m_id := 2; m_name := [114;117;110]%N; m_kind := KMethod; m_in := Base; m_mark := false;
      m_fname := [114;117;110]%N; m_oneway := true |}.
 Definition w_value : member :=
-  {| m_id := 3; m_name := [118;97;108]%N; m_kind := KProp (Some false) None None; m_in := Sub; m_mark := true;
+  {| m_id := 3; m_name := [118;97;108]%N; m_kind := KProp (Some acc_plain) None None; m_in := Sub; m_mark := true;
      m_fname := [118;97;108]%N; m_oneway := false |}.
 Definition w3_shape := {| s_base_exposed := true; s_sub_exposed := false; s_members := [w_ping; w_secret; w_run; w_value] |}.
 (* obj.tool = Tool() where Tool is an @expose'd class defining __call__   — request: call "tool" *)
@@ -491,9 +529,23 @@ Definition w5_shape := {| s_base_exposed := false; s_sub_exposed := false; s_mem
 Definition w5_request := mkreq RCall false [NStr [97;110;121]%N].
 (* a property exposed only on its setter function: @property def lvl ...; @lvl.setter @expose def lvl(self, v) ... *)
 Definition w_lvl : member :=
-  {| m_id := 0; m_name := [108;118;108]%N; m_kind := KProp (Some false) (Some true) None; m_in := Sub; m_mark := false;
+  {| m_id := 0; m_name := [108;118;108]%N; m_kind := KProp (Some acc_plain) (Some acc_marked) None; m_in := Sub; m_mark := false;
      m_fname := [108;118;108]%N; m_oneway := false |}.
 Definition w6_shape := {| s_base_exposed := false; s_sub_exposed := false; s_members := [w_lvl] |}.
 (* __getattr__ ("secret", False) on w1_shape: with *vargs the surplus False switches the exposure test off *)
 Definition w7_request : request :=
   {| r_kind := RGet; r_oneway := false; r_names := [NStr (m_name w_secret)]; r_missing := false; r_surplus := [AFalsy]; r_kwargs := [] |}.
+(* target = property(get_target, set_target) where set_target is also an @expose'd method: the property was never exposed,
+   its SECOND accessor carries a mark in its own right *)
+Definition w_set_target : member :=
+  {| m_id := 0; m_name := [115;101;116;95;116]%N; m_kind := KMethod; m_in := Sub; m_mark := true;
+     m_fname := [115;101;116;95;116]%N; m_oneway := false |}.
+Definition w_target : member :=
+  {| m_id := 1; m_name := [116;97;114;103;101;116]%N; m_kind := KProp (Some acc_plain) (Some acc_foreign) None; m_in := Sub; m_mark := false;
+     m_fname := [116;97;114;103;101;116]%N; m_oneway := false |}.
+Definition w8_shape := {| s_base_exposed := false; s_sub_exposed := false; s_members := [w_set_target; w_target] |}.
+(* a class with a class attribute whose access raises during the metadata scan *)
+Definition w_boom (r : raise_mode) : member :=
+  {| m_id := 2; m_name := [107;97;98;111;111;109]%N; m_kind := KRaiser r; m_in := Sub; m_mark := false;
+     m_fname := [107;97;98;111;111;109]%N; m_oneway := false |}.
+Definition w9_shape (r : raise_mode) := {| s_base_exposed := true; s_sub_exposed := false; s_members := [w_ping; w_run; w_boom r] |}.
